@@ -7,12 +7,48 @@ from bounded.pipeline import pmap, same_result
 from bounded.util import Collector, classify_exception
 
 
+GROUND_OPTS = dict(label_all=True, avoid_name_clash=True, keep_order=True, keep_all=False, keep_duplicates=False,
+                   hide_builtins=False, propagate_evidence=False, propagate_weights=None, args=None)
+
+
+def _ground_task(src, *flags):
+    """The ground task itself (problog.tasks.ground.main) on a temporary file -> (ok, text or exception class)."""
+    import contextlib
+    import io
+    import os
+    import tempfile
+    from problog.tasks import ground
+    fd, path = tempfile.mkstemp(suffix=".pl")
+    os.write(fd, src.encode())
+    os.close(fd)
+    try:
+        buf = io.StringIO()
+        with contextlib.redirect_stdout(buf), contextlib.redirect_stderr(buf):
+            try:
+                ok, res = ground.main([path] + list(flags))
+            except SystemExit:
+                # the task printed the error and exited: recover the exception class from the printed trace
+                import re
+                names = re.findall(r"^([A-Za-z_][\w.]*(?:Error|Exception|Cycle|Clause)\w*)\b", buf.getvalue(), re.M)
+                where = re.findall(r'File ".*?/(\w+)\.py", line \d+, in (\w+)', buf.getvalue())
+                return False, "task-exit:%s%s" % (names[-1] if names else "unknown",
+                                                  "@%s.%s" % where[-1] if where else "")
+        if ok:
+            return True, res
+        return False, classify_exception(res)
+    finally:
+        os.unlink(path)
+
+
 def check_c25(prog):
-    """The ground program exported as ProbLog text (with and without cycle breaking) evaluates to the same
-    probabilities; the exported DIMACS has exactly the clauses of the internal CNF."""
+    """The ground program written by the ground task as ProbLog text (with and without --break-cycles) evaluates to the
+    same probabilities as the original program; the DIMACS text written by `ground --format cnf` (with and without
+    -v, i.e. with and without the comment block of names) has exactly the clauses of the internal CNF."""
     from problog.program import PrologString
-    from problog.formula import LogicFormula, LogicDAG
+    from problog.formula import LogicDAG
     from problog.cnf_formula import CNF
+    from problog.parser import DefaultPrologParser
+    from problog.program import ExtendedPrologFactory
     src = progs.render(prog)
     base = _eval(src)
     out = dict(src=src, base=base, violations=[], nontrivial=False)
@@ -20,41 +56,59 @@ def check_c25(prog):
         out["skip"] = True
         return out
     out["nontrivial"] = any(0.0 < v < 1.0 for v in base[1].values())
-    try:
-        lf = LogicFormula.create_from(PrologString(src))
-    except Exception:      # noqa
-        out["skip"] = True
-        return out
-    for label, make in (("to_prolog", lambda: lf.to_prolog()),
-                        ("to_prolog-acyclic", lambda: LogicDAG.create_from(lf).to_prolog())):
-        try:
-            text = make()
-        except Exception as e:      # noqa
-            out["violations"].append((label + ":export-exception:" + classify_exception(e).split(":", 1)[1],
-                                      "%s raised %s" % (label, classify_exception(e))))
+    for label, flags in (("to_prolog", ["--format", "pl"]), ("to_prolog-acyclic", ["--format", "pl", "--break-cycles"])):
+        ok, text = _ground_task(src, *flags)
+        if not ok:
+            out["violations"].append((label + ":export-exception:" + text.split(":", 1)[1], "ground %s raised %s"
+                                      % (" ".join(flags), text)))
             continue
         r = _eval(text)
         if not same_result(base, r):
             kind = "re-evaluation"
             if r[0] == "exc":
                 kind = "re-evaluation-error:" + r[1].split(":", 1)[1]
+            # the two listed known findings, decided on the exported text itself
+            heads = set()
+            for line in text.splitlines():
+                h = line.split(":-")[0].strip().rstrip(".")
+                heads.add(h.split("::")[-1].strip())
+            if "None" in text.replace(",", " ").replace(".", " ").split():
+                # an unnamed disjunction node (explicit ';' in a body) is printed as None
+                kind = "unnamed-disjunction:" + kind
+            elif (r[0] == "exc" and "UnknownClause" in r[1]) or \
+                    (r[0] == "ok" and all(k not in heads for k in set(base[1]) | set(r[1])
+                                          if abs(base[1].get(k, 0.0) - r[1].get(k, 0.0)) > 1e-7)):
+                # every atom that differs has no clause at all in the export: it shares its node with another atom
+                # of the same ground definition and only one name per node is written
+                kind = "re-evaluation:undefined-shared-atom"
             out["violations"].append((label + ":" + kind, "exported text evaluates to %s, original to %s; exported text:\n%s"
                                       % (_short(r), _short(base), text)))
     # DIMACS
     try:
-        cnf = CNF.create_from(LogicDAG.create_from(lf))
-        text = cnf.to_dimacs()
-        lines = [l for l in text.splitlines() if l and not l.startswith("c")]
-        header = lines[0].split()
-        read = [sorted(int(x) for x in l.split()[:-1]) for l in lines[1:]]
+        model = PrologString(src, parser=DefaultPrologParser(ExtendedPrologFactory()))
+        cnf = CNF.createFrom(LogicDAG.createFrom(model, **GROUND_OPTS))
         internal = [sorted(int(x) for x in (c[1:] if isinstance(c[0], bool) or c[0] is None else c))
                     for c in cnf._clauses if c and c[0] != "c"]
-        if header[:2] != ["p", "cnf"] or int(header[2]) != cnf.atomcount or int(header[3]) != len(read):
-            out["violations"].append(("dimacs:header", "header %s for %d variables / %d clauses" % (header, cnf.atomcount, len(read))))
-        if sorted(read) != sorted(internal) or any(not l.endswith(" 0") for l in lines[1:]):
-            out["violations"].append(("dimacs:clauses", "DIMACS clauses %s differ from internal %s" % (sorted(read), sorted(internal))))
     except Exception as e:      # noqa
         out["violations"].append(("dimacs:exception", classify_exception(e)))
+        return out
+    for label, flags in (("dimacs", ["--format", "cnf"]), ("dimacs-names", ["--format", "cnf", "-v"])):
+        ok, text = _ground_task(src, *flags)
+        if not ok:
+            out["violations"].append((label + ":exception", "ground %s raised %s" % (" ".join(flags), text)))
+            continue
+        try:
+            lines = [l for l in text.splitlines() if l.strip() and not l.startswith("c")]
+            header = lines[0].split()
+            read = [sorted(int(x) for x in l.split()[:-1]) for l in lines[1:]]
+            if header[:2] != ["p", "cnf"] or int(header[2]) != cnf.atomcount or int(header[3]) != len(read):
+                out["violations"].append((label + ":header", "header %s for %d variables / %d clause lines"
+                                          % (header, cnf.atomcount, len(read))))
+            if sorted(read) != sorted(internal) or any(not l.rstrip().endswith(" 0") for l in lines[1:]):
+                out["violations"].append((label + ":clauses", "DIMACS clauses %s differ from internal %s; text:\n%s"
+                                          % (sorted(read), sorted(internal), text)))
+        except Exception as e:      # noqa
+            out["violations"].append((label + ":unreadable", "%s: %s; text:\n%s" % (type(e).__name__, e, text)))
     return out
 
 
@@ -196,7 +250,7 @@ DESCR = {"C25": "to_prolog() text of the ground program (cyclic and cycle-broken
 
 
 def run(pid, tier, seed):
-    n = 2500 if tier == "thorough" else 250
+    n = 4000 if tier == "thorough" else 600
     ps = progs.programs(seed * 32452843 + int(pid[1:]), n, max_choices=9, evidence=(pid != "C23"))
     col = Collector("%s:metamorphic" % pid, "%d seeded programs of the bounded family; %s; distinct = program texts; non-trivial "
                     "= a reference probability strictly between 0 and 1" % (n, DESCR[pid]))
